@@ -5,7 +5,8 @@ import vlib
 
 KEYS_Q = ["SO2_d", "SE2_d", "SO3_d", "SE3_d", "SE_2_3_d", "SGal3_d", "R3_d", "SE2_f", "SE3_f", "SGal3_f"]
 KEYS_T = ["SO2_d", "SE2_d", "SO3_d", "SE3_d", "SE_2_3_d", "SGal3_d", "R3_d",
-          "SO2_f", "SE2_f", "SO3_f", "SE3_f", "SE_2_3_f", "SGal3_f", "R3_f"]
+          "SO2_f", "SE2_f", "SO3_f", "SE3_f", "SE_2_3_f", "SGal3_f", "R3_f",
+          "B1_d", "B2_d", "B1_f"]        # bundles (vlib.BUNDLE_KEYS) for the algorithms: Strata.tla GroupsB
 
 ASSUME = ["tolerance model of spec/ManifTrace.tla (working precision 2^10 u scaled by exact magnitude bounds; Jacobians 1e-6 unit-aware)",
           "TLC + spec/Fix.tla fixed point (195 fractional bits) with BigInteger overrides checked against the pure definitions by FixSelfTest",
